@@ -63,6 +63,9 @@ pub struct SrvCase {
     /// the application creates the kill-switch eventfd BEFORE the server (with daemon-style numbering
     /// the server's copy is then descriptor 0)
     pub kill_first: bool,
+    /// the application binds the listening socket itself and hands its descriptor over
+    /// (HttpServer::new_from_fd) instead of a path
+    pub from_fd: bool,
 }
 
 impl SStep {
@@ -137,6 +140,7 @@ impl SrvCase {
             ("kill_after_start", J::Bool(self.kill_after_start)),
             ("fds_from_zero", J::Bool(self.fds_from_zero)),
             ("kill_first", J::Bool(self.kill_first)),
+            ("from_fd", J::Bool(self.from_fd)),
         ])
     }
     pub fn from_json(j: &J) -> Result<SrvCase, String> {
@@ -160,6 +164,7 @@ impl SrvCase {
             kill_after_start: j.get("kill_after_start").and_then(|x| x.bool()).unwrap_or(false),
             fds_from_zero: j.get("fds_from_zero").and_then(|x| x.bool()).unwrap_or(false),
             kill_first: j.get("kill_first").and_then(|x| x.bool()).unwrap_or(false),
+            from_fd: j.get("from_fd").and_then(|x| x.bool()).unwrap_or(false),
         })
     }
 }
@@ -368,7 +373,16 @@ impl ServerSim {
             if case.kill_switch && case.kill_first {
                 early = Some(make()?);
             }
-            let mut server = HttpServer::new(SOCK_PATH).map_err(|e| format!("HttpServer::new: {}", e))?;
+            let mut server = if case.from_fd {
+                use std::os::unix::io::AsRawFd;
+                let l = simkernel::net::UnixListener::bind(SOCK_PATH).map_err(|e| format!("bind: {}", e))?;
+                let fd = l.as_raw_fd();
+                std::mem::forget(l);
+                // SAFETY: the descriptor is owned by nobody else (the listener object was forgotten).
+                unsafe { HttpServer::new_from_fd(fd) }.map_err(|e| format!("HttpServer::new_from_fd: {}", e))?
+            } else {
+                HttpServer::new(SOCK_PATH).map_err(|e| format!("HttpServer::new: {}", e))?
+            };
             if let Some(l) = case.limit {
                 server.set_payload_max_size(l);
             }
